@@ -95,6 +95,8 @@ type World struct {
 	HandlerErrs []string
 	// Panics lists panics caught while the follower entry points ran (Deliver)
 	Panics []string
+	// RemovalSideEffects: what a completed removal changed for wallets other than the removed one
+	RemovalSideEffects []string
 	// SharedNode: the node belongs to a Base shared by many forks (fork.go); Close leaves it open
 	SharedNode bool
 }
